@@ -369,6 +369,93 @@ func (w *World) monitorProgress() {
 	}
 }
 
+// monitorUnexplainedErrors: ReadSlices may fail only for a reason. Once a
+// connection is established (accepting CONNACK read, retransmission done) an
+// error return needs a fault chosen by the explorer since then: a cut, a lost
+// or failed write, a pause, a failing store operation, hostile bytes, a
+// non-accepting CONNACK, a dial problem, Close/Disconnect or a crash. An error
+// without any of these means the client lost its place in a well-formed
+// stream or gave up on a healthy connection.
+func (w *World) monitorUnexplainedErrors(prop string) {
+	doomed := map[int]bool{} // connections with a lasting problem
+	transient := 0           // one-off causes not yet consumed by an error return
+	everything := false      // Close/Disconnect/crash in progress: anything goes
+	cur := 0                 // the connection the read routine uses
+	established := false
+	stalled := map[int]bool{}
+	expiry := false
+	for i, e := range w.log {
+		switch e.K {
+		case "cut", "bk-hostile", "bk-violation":
+			doomed[e.C] = true
+		case "stall":
+			stalled[e.C] = true
+		case "read":
+			if stalled[e.C] && strings.Contains(e.R, "timeout") {
+				stalled[e.C] = false
+				expiry = true // the pause chosen earlier hit a deadline now
+			}
+		case "crash":
+			established = false
+			transient++
+		case "quit":
+			transient++
+		case "store":
+			if e.R != "" {
+				transient++
+			}
+		case "dial":
+			if e.R != "" {
+				transient++
+			} else {
+				cur = e.C
+				established = false
+			}
+		case "write":
+			if e.R != "" || e.S == "lost" || e.S == "noresponse" || strings.HasPrefix(e.S, "connack=") || strings.HasSuffix(e.S, "+error") || strings.HasSuffix(e.S, "+timeout") {
+				doomed[e.C] = true
+			}
+		case "close":
+			if e.R != "" || !strings.HasPrefix(e.T, "a:reader") {
+				doomed[e.C] = true
+			}
+		case "call":
+			if e.S == "close" || e.S == "disc" {
+				everything = true
+			}
+		case "ret":
+			if e.S != "rs" {
+				continue
+			}
+			if e.R == "nil" || strings.HasPrefix(e.R, "BigMessage") {
+				established = true
+				continue
+			}
+			if strings.Contains(e.R, "ErrClosed") || everything {
+				continue
+			}
+			if !established {
+				// connect attempts may fail for earlier causes (pending retransmission, refusal)
+				if !doomed[cur] && transient == 0 && cur != 0 && len(doomed) == 0 && !expiry && len(stalled) == 0 {
+					w.Violate(prop, "unexplained-readslices-error", "ReadSlices returned %q at step %d while connecting although no fault was chosen at all", e.R, w.log[i].Step)
+					return
+				}
+				transient = 0
+				continue
+			}
+			if strings.Contains(e.R, "timeout") && expiry {
+				expiry = false
+				continue
+			}
+			if !doomed[cur] && transient == 0 {
+				w.Violate(prop, "unexplained-readslices-error", "ReadSlices returned %q at step %d although nothing went wrong on c%d since it was established (no cut, pause, failed or lost write, store failure or hostile byte)", e.R, w.log[i].Step, cur)
+				return
+			}
+			transient = 0
+		}
+	}
+}
+
 // monitorBackoff checks the ReadBackoff clause of C10: no wait after nil or a
 // BigMessage, ReconnectWaitMax after a refusal, otherwise a wait between
 // ReconnectWaitMin and ReconnectWaitMax that doubles on consecutive failures
